@@ -119,6 +119,29 @@ theorem result_is_sum_of_increments (levels : List (List String)) (events : List
   intro k _
   simp
 
+/-- exact repeats: an event that occurs AGAIN later (the same rows, the same `to_observe`), after any number of other
+events, is counted again in full – the result after the repeat is the result before it plus that event's increment;
+nothing about earlier events is remembered or skipped -/
+theorem repeated_event_counts_again (levels : List (List String)) (es es' : List (Bool × List Row))
+    (e : Bool × List Row) :
+    runEvents levels (es ++ e :: es' ++ [e]) =
+      (product levels).map fun k => (k, ((es ++ e :: es').map (eventTerm k)).sum + eventTerm k e) := by
+  rw [result_is_sum_of_increments]
+  apply List.map_congr_left
+  intro k _
+  congr 1
+  have : es ++ e :: es' ++ [e] = (es ++ e :: es') ++ [e] := by simp
+  rw [this, List.map_append, List.sum_append]
+  simp
+
+/-- … and what an event adds does not depend on what was accumulated before (no state besides the running totals) -/
+theorem increment_independent_of_history (es₁ es₂ : List (Bool × List Row))
+    (e : Bool × List Row) (k : Key) :
+    (((es₁ ++ [e]).map (eventTerm k)).sum - (es₁.map (eventTerm k)).sum) =
+    (((es₂ ++ [e]).map (eventTerm k)).sum - (es₂.map (eventTerm k)).sum) := by
+  simp only [List.map_append, List.sum_append, List.map_cons, List.map_nil, List.sum_cons, List.sum_nil]
+  omega
+
 /-- shape: exactly the combinations of the (non-excluded) categories, whatever was observed -/
 theorem result_shape (levels : List (List String)) (events : List (Bool × List Row)) :
     (runEvents levels events).map (·.1) = product levels := by
